@@ -26,6 +26,8 @@ def build_driver(prop, unit):
     if not os.path.exists(src) and '_' in unit:
         src = os.path.join(VERIF, 'replay', 'drivers', '%s_%s.cpp' % (prop, unit.split('_')[0]))
     if not os.path.exists(src):
+        src = os.path.join(VERIF, 'replay', 'drivers', '%s_%s.cpp' % (prop, re.sub(r'\d+$', '', unit)))
+    if not os.path.exists(src):
         return None, 'no native driver for unit %s' % unit
     exe = os.path.join(VERIF, '.work', prop, 'replay_%s' % unit)
     os.makedirs(os.path.dirname(exe), exist_ok=True)
@@ -86,7 +88,7 @@ def write_replay(prop, r, oid, line, desc, oname, builders):
         with open(path, 'w') as f:
             json.dump(rec, f, indent=1)
         kv = write_kv(path, rec)
-        p = subprocess.run([exe, kv, desc], stdout=subprocess.PIPE, stderr=subprocess.STDOUT, timeout=120)
+        p = subprocess.run([exe, kv, desc, r.job.unit], stdout=subprocess.PIPE, stderr=subprocess.STDOUT, timeout=120)
         rec['native'] = p.stdout.decode(errors='replace')[-2000:]
         reproduced = (p.returncode == 1)       # driver convention: 1 = failure reproduced, 0 = not reproduced
     else:
@@ -114,5 +116,5 @@ def replay_file(path):
         print('replay: %s; obligation %s; verifier output follows' % (why, rec['obligation']))
         print('\n'.join(rec.get('verifier_output', [])))
         return 1
-    p = subprocess.run([exe, write_kv(path, rec), rec['description']])
+    p = subprocess.run([exe, write_kv(path, rec), rec['description'], rec['unit']])
     return p.returncode
